@@ -9,7 +9,7 @@ import sys
 
 EXTRA = {"C14-m3": ["C18"], "C11-m3": ["C13"], "C04-m1": ["C01"], "C04-m2": ["C01"], "C04-m3": ["C16"],
          "C13-m4": ["C18"], "C13-m5": ["C08", "C05"], "C15-m5": ["C18"], "C06-m4": ["C05"], "C04-m4": ["C17"],
-         "C13-m8": ["C18"], "C14-m9": ["C13"], "C10-m9": ["C20"], "C09-m9": ["C11", "C13"]}
+         "C13-m8": ["C18"], "C14-m9": ["C13"], "C10-m9": ["C20"], "C09-m9": ["C11", "C13"], "C15-m9": ["C18"]}
 slot = sys.argv[1]
 for sid in sys.argv[2:]:
     mp = "/verif/seeded/%s/meta.json" % sid
